@@ -449,10 +449,22 @@ class NamedTypes(object):
             except AttributeError:
                 tagSet = asn1Object.tagSet
 
-            if minTagSet is None or tagSet < minTagSet:
+            # canonical tag order (X.680 8.6) looks at the outermost tag:
+            # class first, then number
+            if (minTagSet is None or
+                    self.__outermostTagKey(tagSet) <
+                    self.__outermostTagKey(minTagSet)):
                 minTagSet = tagSet
 
         return minTagSet or tag.TagSet()
+
+    @staticmethod
+    def __outermostTagKey(tagSet):
+        if not tagSet:
+            return ()
+
+        outermostTag = tagSet[-1]
+        return outermostTag.tagClass, outermostTag.tagId
 
     @property
     def minTagSet(self):
